@@ -189,7 +189,7 @@ def check(ctx, rep):
                 continue
             looked = [t for t, val, b in q.atoms(p) if isinstance(t, tuple) and t[0] == "attr" and (t[2] in ftypes or t[2] == DFF)] or dcs
             rep.ob("R-CANCEL-FWD", "%s.%s consults the delegate before answering True" % (ci.name, hook), bool(looked), "may return %s without ever looking at the future's delegate: an attempt already handed to the delegate keeps running although cancel() said True [%s]" % (fmt(v), sig[:100]), where_of(mc), trace_of(p))
-            src = _source(v, p, it, dcs, queues, CFS)
+            src = _source(v, p, it, dcs, queues, CFS, {rex.key: DFF})
             rep.ob("R-TRUE", "%s.%s: True only from an admissible source" % (ci.name, hook), src is not None, "returns %s on path [%s] which is neither the delegate's cancel() result, nor follows the removal of the future's job from the queue under its lock, nor the cancel function's answer" % (fmt(v), sig[:140]), where_of(mc), trace_of(p))
     rep.count("cancel hook implementations", nme, 4)
 
@@ -273,7 +273,7 @@ def _may_be_true(v, p):
     return True
 
 
-def _source(v, p, it, dcs, queues, CFS):
+def _source(v, p, it, dcs, queues, CFS, inflight={}):
     """why may this path return a true value?"""
     # (a) the delegate's cancel() result
     for e in dcs:
@@ -298,6 +298,10 @@ def _source(v, p, it, dcs, queues, CFS):
                             if isinstance(x, tuple) and x[0] == "attr" and x[2] == F and isinstance(y, tuple) and y[0] == "param":
                                 J = x[1]
                                 if (j == J or (j is None and _removes(e, J, p))) and roles.held_throughout(p, Qx.lock_term(e, owner), b, e):
+                                    # a list that also holds jobs with an attempt in flight: the removed job must
+                                    # have been found to have none (else the attempt keeps running after True)
+                                    if inflight.get(Qx.cls.key) and not any(val2 is False and t2 == ("attr", J, inflight[Qx.cls.key]) and b2.seq < e.seq for t2, val2, b2 in q.atoms(p)):
+                                        continue
                                     return "job removed from the queue under its lock"
         # (c) poll: no cancel function / not in the polling stage
         for t, val, b in q.atoms(p):
